@@ -502,15 +502,19 @@ func (encryptor *QueryDataEncryptor) encryptInsertValues(ctx context.Context, in
 		logger.WithError(err).Errorln("Can't extract placeholders from INSERT query")
 		return values, false, err
 	}
-	encryptor.savePlaceholderSettingIntoClientSession(ctx, placeholders, schema)
-
-	// TODO(ilammy, 2020-10-13): handle ON DUPLICATE KEY UPDATE clauses
-	// These clauses are handled for textual queries. It would be nice to encrypt
-	// any prepared statement parameters that are used there as well.
-	// See "encryptInsertQuery" for reference.
-	if len(insert.OnDup) > 0 {
-		logrus.Warning("ON DUPLICATE KEY UPDATE is not supported in prepared statements")
+	// Placeholders used directly as values of ON DUPLICATE KEY UPDATE assignments are bound to the
+	// assigned column, like the SET assignments of an UPDATE (see "encryptUpdateValues").
+	if placeholders != nil {
+		for _, expr := range insert.OnDup {
+			if value, ok := expr.Expr.(*sqlparser.SQLVal); ok {
+				if err := encryptor.updatePlaceholderMap(len(values), placeholders, value, expr.Name.Name.String()); err != nil {
+					logger.WithError(err).Errorln("Can't extract placeholders from ON DUPLICATE KEY UPDATE")
+					return values, false, err
+				}
+			}
+		}
 	}
+	encryptor.savePlaceholderSettingIntoClientSession(ctx, placeholders, schema)
 
 	// Now that we know the placeholder mapping,
 	// encrypt the values inserted into encrypted columns.
